@@ -14,9 +14,11 @@ import (
 	"crypto/ed25519"
 	"crypto/rsa"
 	b64 "encoding/base64"
+	"encoding/hex"
 	"encoding/json"
 	"errors"
 	"fmt"
+	"golang.org/x/crypto/ssh"
 	"io"
 	"math/rand"
 	"net/http"
@@ -301,11 +303,13 @@ func TestVerifC04Tok(t *testing.T) {
 	now := time.Now()
 	const L = 1470 * 60
 
-	emit := func(v vVariant, hdr string) {
-		if len(only) > 0 && !only["apitoken|"+v.Name] {
+	var emitAt func(v vVariant, hdr string, at time.Time, force bool)
+	emit := func(v vVariant, hdr string) { emitAt(v, hdr, now, false) }
+	emitAt = func(v vVariant, hdr string, at time.Time, force bool) {
+		if len(only) > 0 && !force && !only["apitoken|"+v.Name] {
 			return
 		}
-		op, res := mw.op(v, hdr, now)
+		op, res := mw.op(v, hdr, at)
 		// the model gets the header as sent unless it is long: then scheme + length only
 		type long struct {
 			vTokOp
@@ -483,6 +487,13 @@ func TestVerifC04Tok(t *testing.T) {
 				{"hdr-nbsp-bearer-token-nbsp", "valid", "\u00a0Bearer " + valid + "\u3000"},
 				{"hdr-bearer-zwsp-token", "no-credential", "Bearer\u200b" + valid},
 				{"hdr-bearer-invalid-utf8", "no-credential", "Bearer\xc2" + valid},
+				{"hdr-1-byte", "no-credential", "B"},
+				{"hdr-2-bytes", "no-credential", "Be"},
+				{"hdr-4-bytes", "no-credential", "Bear"},
+				{"hdr-5-bytes", "no-credential", "Beare"},
+				{"hdr-6-bytes-bearer", "no-credential", "bearer"},
+				{"hdr-7-bytes-bearer-x", "no-credential", "Bearerx"},
+				{"hdr-1-byte-nonascii", "no-credential", "\xff"},
 				{"hdr-garbage", "garbage", "Bearer invalid"},
 				{"hdr-garbage-dots", "garbage", "Bearer a.b.c"},
 				{"hdr-empty-json", "garbage", "Bearer {}"},
@@ -500,16 +511,66 @@ func TestVerifC04Tok(t *testing.T) {
 			}
 		}
 	}
-	// --- a hand-edited authorized_keys file: comments, blank lines, a weak RSA key, a key without user name, a commented-out
-	// key, options, a user name with spaces, the same key twice. Which lines become authorised keys, and who gets in.
-	if len(only) == 0 || true {
-		type ent struct {
-			line    string // text of the line
-			key     *vKey  // nil for blank lines
-			iss     string // issuer a holder of that key would put in his token
-			class   string
-			blank   bool
-			comment string
+	// --- histories on ONE middleware instance: the same credentials presented again while the clock moves past exp / nbf.
+	// The decision must be the one for (credential, clock) alone, whatever was presented (and granted) before.
+	histWanted := len(only) == 0
+	for k := range only {
+		if strings.Contains(k, "history-") {
+			histWanted = true
+		}
+	}
+	if histWanted {
+		for time.Now().Nanosecond() > 350_000_000 { // start early in a second: every phase stays clear of second boundaries
+			time.Sleep(20 * time.Millisecond)
+		}
+		base := time.Now()
+		mk := func(k *vKey, iat, nbf, exp int64) string {
+			cl := vAPIClaims(k.name, aud, base)
+			cl["iat"], cl["nbf"], cl["exp"] = iat, nbf, exp
+			bb := vBase{hdr: map[string]interface{}{"typ": "JWT", "kid": k.kid}, payload: vJSON(cl), signer: k, other: keys[1], attacker: attacker}
+			return vCompact(bb.sigFor(k), bb.payload)
+		}
+		bu := base.Unix()
+		type htok struct {
+			name, tok string
+			classA    string // at base
+			classB    string // 3 s later
+		}
+		hts := []htok{
+			{"expires-in-2s-alice", mk(keys[0], bu-10, bu-10, bu+2), "valid", "expired"},
+			{"expires-in-2s-bob", mk(keys[1], bu-10, bu-10, bu+2), "valid", "expired"},
+			{"valid-from-2s", mk(keys[0], bu-10, bu+2, bu+3600), "not-yet-valid", "valid"},
+			{"valid-for-an-hour", mk(keys[2], bu-10, bu-10, bu+3600), "valid", "valid"},
+			{"expired-already", mk(keys[0], bu-100, bu-100, bu-5), "expired", "expired"},
+		}
+		present := func(phase string, rep int) {
+			for _, h := range hts {
+				for _, shape := range []string{"Bearer ", "bearer\t"} {
+					class := h.classA
+					if phase != "A" {
+						class = h.classB
+					}
+					name := fmt.Sprintf("history-%s-%s%d-%s", h.name, phase, rep, strings.TrimSpace(shape))
+					emitAt(vVariant{Name: name, Class: class, HAlg: "", By: "signer"}, shape+h.tok, time.Now(), true)
+				}
+			}
+		}
+		present("A", 1)
+		present("A", 2)
+		time.Sleep(time.Until(time.Unix(bu+3, 250_000_000)))
+		present("B", 1)
+		present("B", 2)
+	}
+
+	// --- hand-edited authorized_keys files: comments, blank lines, a weak RSA key, a key without user name, commented-out keys
+	// (plain, after blanks/tabs, after a UTF-8 BOM / NBSP / a word, in CRLF files), inline comments, options, user names with
+	// spaces, the same key twice. Which lines become authorised keys (= the model's parse of the same bytes), and who gets in.
+	{
+		type holder struct {
+			key   *vKey
+			iss   string // issuer a holder of that key would put in his token
+			class string // for iss = e.iss
+			owner string // user name the file gives that key ("" = none: not authorised)
 		}
 		ak := func(k *vKey, comment string) string {
 			f := strings.Fields(k.sshLine)
@@ -517,94 +578,123 @@ func TestVerifC04Tok(t *testing.T) {
 		}
 		a, b, c := keys[0], keys[1], keys[2]
 		weak, nocomment, ghost, opt := vNewKey("rsa1024", "weak@verif"), vNewKey("ed", "nobody@verif"), vNewKey("ed", "ghost@verif"), vNewKey("p256", "opt@verif")
-		ents := []ent{
-			{line: "#####", blank: true},
-			{line: "  # ", blank: true},
-			{line: ak(a, "alice@verif"), key: a, iss: "alice@verif", class: "valid", comment: "alice@verif"},
-			{line: "", blank: true},
-			{line: "   " + ak(b, "bob@verif") + "   # added by ops", key: b, iss: "bob@verif", class: "valid", comment: "bob@verif"},
-			{line: ak(weak, "weak@verif"), key: weak, iss: "weak@verif", class: "key-weak-rsa", comment: "weak@verif"},
-			{line: ak(nocomment, ""), key: nocomment, iss: "nobody@verif", class: "key-no-comment", comment: ""},
-			{line: "#" + ak(ghost, "ghost@verif"), key: ghost, iss: "ghost@verif", class: "key-commented-out", blank: true},
-			{line: "\t" + ak(c, "carol with spaces") + " ", key: c, iss: "carol with spaces", class: "valid", comment: "carol with spaces"},
-			{line: ak(a, "alice-dup@verif"), key: a, iss: "alice-dup@verif", class: "dup-key-second-name", comment: "alice-dup@verif"},
-			{line: `no-port-forwarding,command="/bin/true" ` + ak(opt, "opt@verif"), key: opt, iss: "opt@verif", class: "valid", comment: "opt@verif"},
+		hAlice := holder{a, "alice@verif", "valid", "alice@verif"}
+		hGhost := holder{ghost, "ghost@verif", "key-commented-out", ""}
+		const bom = "\xef\xbb\xbf"
+		files := []struct {
+			name    string
+			content string
+			holders []holder
+		}{
+			{"messy", strings.Join([]string{"#####", "  # ", ak(a, "alice@verif"), "", "   " + ak(b, "bob@verif") + "   # added by ops", ak(weak, "weak@verif"),
+				ak(nocomment, ""), "#" + ak(ghost, "ghost@verif"), "\t" + ak(c, "carol with spaces") + " ", ak(a, "alice-dup@verif"),
+				`no-port-forwarding,command="/bin/true" ` + ak(opt, "opt@verif")}, "\n") + "\n",
+				[]holder{hAlice, {b, "bob@verif", "valid", "bob@verif"}, {weak, "weak@verif", "key-weak-rsa", ""}, {nocomment, "nobody@verif", "key-no-comment", ""},
+					hGhost, {c, "carol with spaces", "valid", "carol with spaces"}, {a, "alice-dup@verif", "dup-key-second-name", "alice@verif"}, {opt, "opt@verif", "valid", "opt@verif"}}},
+			{"commented-variants", strings.Join([]string{ak(a, "alice@verif"), "\t#" + ak(ghost, "ghost@verif"), "   #   " + ak(ghost, "ghost@verif"),
+				"##" + ak(ghost, "ghost@verif"), "# " + ak(ghost, "ghost@verif") + " # twice"}, "\n"), []holder{hAlice, hGhost}},
+			{"bom-commented-key-first", bom + "#" + ak(ghost, "ghost@verif") + "\n" + ak(a, "alice@verif") + "\n", []holder{hAlice, hGhost}},
+			{"bom-comment-first", bom + "# keys\n" + ak(a, "alice@verif") + "\n#" + ak(ghost, "ghost@verif") + "\n", []holder{hAlice, hGhost}},
+			{"bom-then-key", bom + ak(a, "alice@verif") + "\n", []holder{hAlice}},
+			{"nbsp-commented-key", ak(a, "alice@verif") + "\n\u00a0#" + ak(ghost, "ghost@verif") + "\n", []holder{hAlice, hGhost}},
+			{"word-commented-key", ak(a, "alice@verif") + "\nrevoked# " + ak(ghost, "ghost@verif") + "\n", []holder{hAlice, hGhost}},
+			{"word-space-commented-key", ak(a, "alice@verif") + "\nrevoked #" + ak(ghost, "ghost@verif") + "\n", []holder{hAlice, hGhost}},
+			{"crlf", "# keys\r\n" + ak(a, "alice@verif") + "\r\n#" + ak(ghost, "ghost@verif") + "\r\n" + ak(b, "bob@verif") + " # ops\r\n",
+				[]holder{hAlice, hGhost, {b, "bob@verif", "valid", "bob@verif"}}},
+			{"crlf-blank-line", ak(a, "alice@verif") + "\r\n\r\n#" + ak(ghost, "ghost@verif") + "\r\n", []holder{hAlice, hGhost}},
+			{"cr-only-commented", ak(a, "alice@verif") + "\n\r#" + ak(ghost, "ghost@verif") + "\n", []holder{hAlice, hGhost}},
+			{"inline-comment-no-space", ak(a, "alice@verif") + "#note\n#" + ak(ghost, "ghost@verif"), []holder{hAlice, hGhost}},
+			{"option-with-hash", `command="echo #hi" ` + ak(opt, "opt@verif") + "\n" + ak(a, "alice@verif") + "\n", []holder{hAlice, {opt, "opt@verif", "valid-if-listed", "opt@verif"}}},
+			{"comment-with-hash-name", ak(a, "alice#1@verif") + "\n", []holder{{a, "alice#1@verif", "name-cut-at-hash", "alice"}}},
+			{"empty-file", "", nil},
+			{"only-comments", "# a\n   # b\n\n", nil},
 		}
-		var lines []string
-		var desc []map[string]interface{}
-		for _, e := range ents {
-			lines = append(lines, e.line)
-			d := map[string]interface{}{"blank": e.blank, "kind": "other", "bits": 0, "comment": e.comment}
-			if e.key != nil {
-				switch pk := e.key.pub.(type) {
-				case *rsa.PublicKey:
-					d["kind"], d["bits"] = "rsa", pk.N.BitLen()
-				case *ecdsa.PublicKey:
-					d["kind"] = "ecdsa"
-				default:
-					d["kind"] = "ed25519"
+		for _, f := range files {
+			// the lines as parseAuthorizedKeys splits them, their pre-processed text and the ssh parser's verdict on it
+			var desc []map[string]interface{}
+			for _, raw := range strings.Split(f.content, "\n") {
+				pre := strings.TrimRight(strings.TrimLeft(strings.SplitN(raw, "#", 2)[0], " \t"), " \t")
+				d := map[string]interface{}{"raw": hex.EncodeToString([]byte(raw)), "pre": hex.EncodeToString([]byte(pre)), "v": nil}
+				if pre != "" {
+					pk, comment, _, rest, err := ssh.ParseAuthorizedKey([]byte(pre))
+					if err != nil || rest != nil {
+						d["v"] = map[string]interface{}{"err": true}
+					} else {
+						v := map[string]interface{}{"kind": "other", "bits": 0, "comment": strings.TrimSpace(comment)}
+						if cp, ok := pk.(ssh.CryptoPublicKey); ok {
+							switch k := cp.CryptoPublicKey().(type) {
+							case *rsa.PublicKey:
+								v["kind"], v["bits"] = "rsa", k.N.BitLen()
+							case *ecdsa.PublicKey:
+								v["kind"] = "ecdsa"
+							case ed25519.PublicKey:
+								v["kind"] = "ed25519"
+							}
+						}
+						d["v"] = v
+					}
 				}
+				desc = append(desc, d)
 			}
-			desc = append(desc, d)
-		}
-		m2, err := New(nil, aud, []byte(strings.Join(lines, "\n")+"\n"))
-		if err != nil { // the file is well-formed: a parser that chokes on it shows up as a correspondence difference
-			out.emit(map[string]interface{}{"op": "akeys", "lines": desc}, "parse-error")
-			return
-		}
-		impl2 := m2.(*middlewareImpl)
-		var names []string
-		var vkeys []*vKey
-		for _, k := range impl2.authorizedKeys {
-			names = append(names, k.comment)
-			vkeys = append(vkeys, &vKey{name: k.comment})
-		}
-		if len(only) == 0 {
-			out.emit(map[string]interface{}{"op": "akeys", "lines": desc}, strings.Join(names, "|"))
-		}
-		mw2 := &vMW{impl: impl2, keys: vkeys, aud: aud, e: mw.e}
-		for _, e := range ents {
-			if e.key == nil {
+			m2, err := New(nil, aud, []byte(f.content))
+			if err != nil {
+				if len(only) == 0 {
+					out.emit(map[string]interface{}{"op": "akeys", "file": f.name, "lines": desc}, "parse-error")
+				}
 				continue
 			}
-			k := e.key
-			hdr := map[string]interface{}{"typ": "JWT", "kid": k.kid}
-			for _, issVariant := range []string{e.iss, "alice@verif", ""} {
-				bb := vBase{hdr: hdr, payload: vJSON(vAPIClaims(issVariant, aud, now)), signer: k, other: a, attacker: attacker}
-				tok := vCompact(bb.sigFor(k), bb.payload)
-				class := e.class
-				if issVariant == "" { // the holder of a key without user name would claim the empty issuer
-					if strings.HasPrefix(e.class, "key-") {
-						class = e.class + "+iss-empty"
-					} else {
+			impl2 := m2.(*middlewareImpl)
+			var names []string
+			var vkeys []*vKey
+			for _, k := range impl2.authorizedKeys {
+				names = append(names, k.comment)
+				vkeys = append(vkeys, &vKey{name: k.comment})
+			}
+			if len(only) == 0 {
+				out.emit(map[string]interface{}{"op": "akeys", "file": f.name, "lines": desc}, strings.Join(names, "|"))
+			}
+			mw2 := &vMW{impl: impl2, keys: vkeys, aud: aud, e: mw.e}
+			for _, e := range f.holders {
+				k := e.key
+				hdr := map[string]interface{}{"typ": "JWT", "kid": k.kid}
+				for _, issVariant := range []string{e.iss, "alice@verif", ""} {
+					bb := vBase{hdr: hdr, payload: vJSON(vAPIClaims(issVariant, aud, now)), signer: k, other: a, attacker: attacker}
+					tok := vCompact(bb.sigFor(k), bb.payload)
+					class := e.class
+					switch {
+					case e.owner == "": // not an authorised key, whatever issuer it claims
+						if issVariant == "" {
+							class = e.class + "+iss-empty"
+						} else if issVariant != e.iss {
+							class = e.class + "+iss-alice"
+						}
+					case issVariant == e.owner:
+						class = "valid"
+						if e.class == "valid-if-listed" || e.class == "name-cut-at-hash" {
+							class = e.class // no demand either way
+						}
+					case issVariant == e.iss && e.class != "valid":
+						class = e.class // dup-key-second-name, name-cut-at-hash …: no demand
+					default:
 						class = "iss-not-key-owner"
 					}
-				} else if issVariant != e.iss {
-					class = e.class + "+iss-alice"
-					if e.class == "valid" || e.class == "dup-key-second-name" {
-						if e.key == a { // alice's key (also the duplicate line): alice@verif is its (first) user name
-							class = "valid"
-						} else {
-							class = "iss-not-key-owner"
-						}
+					name := "akeys-" + f.name + "-" + strings.ReplaceAll(e.iss, " ", "_") + "-as-" + strings.ReplaceAll(issVariant, " ", "_")
+					if len(only) > 0 && !only["apitoken|"+name] {
+						continue
 					}
+					by := "signer"
+					if strings.HasPrefix(class, "key-") {
+						by = "unauthorised-key"
+					}
+					op, res := mw2.op(vVariant{Name: name, Class: class, HAlg: string(k.alg), By: by}, "Bearer "+tok, now)
+					type long struct {
+						vTokOp
+						Scheme  string `json:"scheme"`
+						NFields int    `json:"nfields"`
+						CredLen int    `json:"credlen"`
+					}
+					out.emit(long{vTokOp: op, Scheme: "Bearer", NFields: 2, CredLen: len(tok)}, res)
 				}
-				name := "akeys-" + strings.ReplaceAll(e.iss, " ", "_") + "-as-" + strings.ReplaceAll(issVariant, " ", "_")
-				if len(only) > 0 && !only["apitoken|"+name] {
-					continue
-				}
-				by := "signer"
-				if strings.HasPrefix(class, "key-") {
-					by = "unauthorised-key"
-				}
-				op, res := mw2.op(vVariant{Name: name, Class: class, HAlg: string(k.alg), By: by}, "Bearer "+tok, now)
-				type long struct {
-					vTokOp
-					Scheme  string `json:"scheme"`
-					NFields int    `json:"nfields"`
-					CredLen int    `json:"credlen"`
-				}
-				out.emit(long{vTokOp: op, Scheme: "Bearer", NFields: 2, CredLen: len(tok)}, res)
 			}
 		}
 	}
